@@ -24,7 +24,9 @@ func TestVerif(t *testing.T) {
 		t.Fatal(err)
 	}
 	defer out.Close()
-	verifC19(t, vfh.NewRand(vfh.Seed()), out)
+	r := vfh.NewRand(vfh.Seed())
+	verifC19(t, r, out)
+	verifC19Concurrent(t, r, out)
 }
 
 // ---------------------------------------------------------------------------------------------
